@@ -268,21 +268,33 @@ def faithful (fmt : Format) (c : FCol) (r : RCol) : Bool :=
   r.name == nameRepr fmt c.name && r.shape == c.shape && r.cells == (valueRepr c).map some &&
   (r.cells.isEmpty || ((r.kind == .str) == (kindRepr c == .str)))
 
+def textOf : Cell → Str
+  | .str s => s
+  | _ => []
+
+/-- the number an ASCII reader makes of a field -/
+def numCell (s : Str) : Cell :=
+  match parseNum s with
+  | some q => .num q
+  | none => .nan
+
+/-- an empty field is a missing value -/
+def asciiCells (conv : Str → Cell) (texts : List Str) : List (Option Cell) :=
+  texts.map fun s => if s.isEmpty then none else some (conv s)
+
 /-- ASCII readers (astropy.io.ascii): an empty field is a missing value, and the column type is
 inferred from the remaining fields: all integer literals → int, all numbers → float, else text. -/
 def asciiRead (fmt : Format) (c : FCol) : RCol :=
   match c.kind with
   | .str =>
-    let texts : List Str := c.cells.map fun x => match x with | .str s => s | _ => []
+    let texts : List Str := c.cells.map textOf
     let present := texts.filter fun s => !s.isEmpty
-    let cellOf (conv : Str → Cell) : List (Option Cell) :=
-      texts.map fun s => if s.isEmpty then none else some (conv s)
     if present.all intLike then
-      ⟨nameRepr fmt c.name, .int 64, c.shape, cellOf fun s => match parseNum s with | some q => .num q | none => .nan⟩
+      ⟨nameRepr fmt c.name, .int 64, c.shape, asciiCells numCell texts⟩
     else if present.all fun s => (parseNum s).isSome then
-      ⟨nameRepr fmt c.name, .float, c.shape, cellOf fun s => match parseNum s with | some q => .num q | none => .nan⟩
+      ⟨nameRepr fmt c.name, .float, c.shape, asciiCells numCell texts⟩
     else
-      ⟨nameRepr fmt c.name, .str, c.shape, cellOf .str⟩
+      ⟨nameRepr fmt c.name, .str, c.shape, asciiCells .str texts⟩
   | .int _ => ⟨nameRepr fmt c.name, .int 64, c.shape, c.cells.map some⟩
   | .uint _ => ⟨nameRepr fmt c.name, .int 64, c.shape, c.cells.map some⟩
   | .float => ⟨nameRepr fmt c.name, .float, c.shape, c.cells.map some⟩
